@@ -97,9 +97,18 @@ struct PktGen {
         note("ICMP(" + std::to_string(k) + ")");
         bool err = (k >= 4 && k <= 6);
         if (err) { Bytes b = r.bytes(r.chance(1, 2) ? 28 + r.below(8) : 100 + r.below(80)); c->inner_pdu(new RawPDU(b.data(), (u32)b.size()));
-            if (r.chance(1, 2)) { ICMPExtensionsStructure ex; for (u32 i = 1 + r.below(2); i--;) { ICMPExtension e((u8)r.byte(), (u8)r.byte()); e.payload(r.bytes(4 * r.below(4))); ex.add_extension(e); } c->extensions() = ex; c->use_length_field(r.below(2)); note("+ext"); } }
+            if (r.chance(1, 2)) { c->extensions() = ext_struct(); c->use_length_field(r.below(2)); } }
         else if (r.chance(2, 3) && k != 2 && k != 3) c->inner_pdu(raw());
         return c;
+    }
+    // RFC 4884 extension structure; one time in three its content is solved so that the structure's checksum comes out as 0x0000
+    // (the boundary value of one's complement checksums: writers and validators tend to disagree exactly there)
+    ICMPExtensionsStructure ext_struct() {
+        std::vector<ICMPExtension> es; for (u32 i = 1 + r.below(2); i--;) { ICMPExtension e((u8)r.byte(), (u8)r.byte()); e.payload(r.bytes(4 * r.below(4))); es.push_back(e); }
+        bool force = r.chance(1, 3);
+        if (force) { Bytes p = es.back().payload(); if (p.size() < 4) p = r.bytes(4 + 4 * r.below(3)); p[p.size() - 2] = 0; p[p.size() - 1] = 0; es.back().payload(p);
+            ICMPExtensionsStructure t; for (auto& e : es) t.add_extension(e); Bytes y = t.serialize(); p[p.size() - 2] = y[2]; p[p.size() - 1] = y[3]; es.back().payload(p); }
+        ICMPExtensionsStructure ex; for (auto& e : es) ex.add_extension(e); note(force ? "+ext(checksum=0)" : "+ext"); return ex;
     }
     PDU* icmpv6() {
         static const ICMPv6::Types ts[] = {ICMPv6::ECHO_REQUEST, ICMPv6::ECHO_REPLY, ICMPv6::NEIGHBOUR_SOLICIT, ICMPv6::NEIGHBOUR_ADVERT, ICMPv6::ROUTER_SOLICIT, ICMPv6::ROUTER_ADVERT, ICMPv6::REDIRECT, ICMPv6::DEST_UNREACHABLE, ICMPv6::PACKET_TOOBIG, ICMPv6::MLD2_REPORT, ICMPv6::MGM_QUERY, ICMPv6::TIME_EXCEEDED};
@@ -121,6 +130,8 @@ struct PktGen {
             case 6: { Bytes b = r.bytes(6 + 8 * (r.chance(1, 3) ? 30 + r.below(40) : r.below(3))); c->add_option(ICMPv6::option((u8)(40 + r.below(100)), b.begin(), b.end())); break; }   // sometimes >= 256 octets (e.g. redirected header)
             default: c->nonce(r.bytes(6 + 8 * r.below(2))); }
         note("ICMPv6(" + std::to_string((int)ty) + ",o" + std::to_string(n) + ")");
+        if ((ty == ICMPv6::DEST_UNREACHABLE || ty == ICMPv6::TIME_EXCEEDED) && r.chance(1, 2)) {     // error message quoting a datagram, with RFC 4884 extensions
+            Bytes b = r.bytes(r.chance(1, 2) ? 48 + r.below(16) : 128 + r.below(80)); c->inner_pdu(new RawPDU(b.data(), (u32)b.size())); c->extensions() = ext_struct(); c->use_length_field(r.below(2)); return c; }
         if (!nd && ty != ICMPv6::MLD2_REPORT && ty != ICMPv6::MGM_QUERY && r.chance(2, 3)) c->inner_pdu(raw());
         return c;
     }
